@@ -244,6 +244,50 @@ def require_quiet_subst(P, u):
                              'replacement list multiplies every path; the parameter-driven explorations are not started (R09.23 reports the call)' % (hits[0][1][1], hits[0][1][3]))
 
 
+_LOOPS = ('WhileStmt', 'ForStmt', 'DoStmt')
+
+
+class ListLoopInterp(PInterp):
+    """loop_limit bounds the length of the abstract token list the explored function walks in its outermost loop(s).
+
+    The shared engine counts an iteration against loop_limit only when the loop head itself decides the continuation
+    condition. A function that has looked at its list before the loop (`if (tok->kind == TK_EOF) return tok;`, an
+    assertion, a peeled first iteration) enters the loop with the condition decided already: that iteration would be free,
+    the explored lists one token longer and the number of paths a multiple. Here every iteration of an outermost loop
+    of the explored function whose continuation condition is a fact about abstract data (a view of a cell, not a
+    constant of the program) is one element of the abstract list and counts - whether the path decided the fact at
+    the loop head or before it. Nested loops (over argument lists) keep the engine's rule."""
+
+    def exec_loop(self, s, _unused, cond, inc, body, env):
+        from .interp import Infeasible, _Break, _Continue
+        ctx = self.ctx
+        if cond is None or ctx.depth != 1 or any(a.kind in _LOOPS for a in s.ancestors()):
+            return super().exec_loop(s, _unused, cond, inc, body, env)
+        generic = 0
+        iters = 0
+        while True:
+            cv = self.eval(cond, env)
+            c = self.truth(cv, cond)
+            if not c:
+                ctx.emit('loop_done', s.line, iters)
+                break
+            if not isinstance(cv, int):
+                generic += 1
+                if generic > self.loop_limit:
+                    raise Infeasible('loop bound')
+            iters += 1
+            if iters > 20000:
+                raise AnalysisBroken('concrete loop does not terminate at %s:%d' % (self.unit.name, s.line))
+            try:
+                self.exec(body, env)
+            except _Break:
+                break
+            except _Continue:
+                pass
+            if inc is not None:
+                self.eval(inc, env)
+
+
 def explore_subst(P, u, loop_limit=2, only=None, max_paths=200000):
     """paths of subst(body, args) over abstract body tokens; each token has one spelling-class cell.
     only: restrict the spellings of replacement-list tokens to these classes (a sub-language of replacement lists).
@@ -308,7 +352,7 @@ def _explore_subst(P, u, loop_limit, only, max_paths):
         ctx.emit('call', 'subst', args, n.line, res)
         return res
 
-    it = PInterp(P, u, {'opaque': ['preprocess2', 'has_varargs', 'skip'],
+    it = ListLoopInterp(P, u, {'opaque': ['preprocess2', 'has_varargs', 'skip'],
                         'cut': {'read_macro_arg_one': cut_rmao, 'stringize': cut_stringize, 'paste': cut_paste, 'subst': cut_subst},
                         'models': {'copy_token': m_copy_token, 'equal': make_equal_model(classes, False, cell), 'find_arg': make_find_arg_model(classes, cell)},
                         'loop_limit': loop_limit, 'track_stores': True, 'lazy_field': copy_lazy_field})
@@ -376,7 +420,7 @@ def explore_subst_shared(P, u, body_classes, loop_limit=2):
             return 0
         return copy_lazy_field(it, ctx, o, f, t)
 
-    it = PInterp(P, u, {'opaque': ['preprocess2', 'has_varargs', 'skip'],
+    it = ListLoopInterp(P, u, {'opaque': ['preprocess2', 'has_varargs', 'skip'],
                         'cut': {'read_macro_arg_one': cut_rmao, 'stringize': fresh('stringize'), 'paste': fresh('paste')},
                         'models': {'copy_token': m_copy_token, 'equal': m_equal, 'find_arg': m_find_arg},
                         'loop_limit': loop_limit, 'track_stores': True, 'lazy_field': hook})
